@@ -1,31 +1,13 @@
 import I18n.Model.PyFmtG
+import I18n.Lemmas.PyKitLemmas
 /-!
 # `Conversion.__init__` / `FormatString.add_argument` regenerated from `lib/strformat/python.py` equal the hand-written model
 -/
 set_option linter.unusedSimpArgs false
 set_option linter.unusedVariables false
 namespace I18n.PyFmt.Gen
-open I18n I18n.PyFmt I18n.PyFmt.Py I18n.PyFmt.G I18n.Generated
+open I18n I18n.PyFmt I18n.PyFmt.Py I18n.PyFmt.G I18n.Generated I18n.PyKit
 open I18n.Generated.PyFormatTables
-
-/-- a loop over `l.map f` whose body is one step of the recursive function `g` -/
-theorem forEach_map {α β σ ε : Type} (f : β → α) (body : α → σ → Except ε σ) (g : List β → σ → Except ε σ)
-    (hnil : ∀ s, g [] s = .ok s)
-    (hcons : ∀ b rest s, g (b :: rest) s = (body (f b) s).bind (g rest)) :
-    ∀ (l : List β) (s : σ), PyKit.forEach (l.map f) body s = g l s := by
-  intro l
-  induction l with
-  | nil => intro s; simp [PyKit.forEach, hnil]
-  | cons b rest ih =>
-    intro s
-    simp only [List.map, PyKit.forEach, hcons]
-    cases body (f b) s with
-    | error e => rfl
-    | ok s' => exact ih s'
-
-theorem ite_ok {ε α : Type} (c : Prop) [Decidable c] (a b : α) :
-    (if c then (Except.ok a : Except ε α) else Except.ok b) = Except.ok (if c then a else b) := by
-  split <;> rfl
 
 /-- `add_argument` as regenerated, with the callers' `except IndexError: raise ArgumentIndexingMixture(s)` = the model's `addArgument` -/
 theorem add_argument_eq (st : St) (key : Option (List Char)) (arg : Entry) :
@@ -114,111 +96,180 @@ theorem lookup_chain (conv : Char) :
 theorem cpercent (conv : Char) : (conv == 'c' || conv == '%') = "c%".toList.contains conv := by
   cases h1 : (conv == 'c') <;> cases h2 : (conv == '%') <;> simp_all
 
-set_option hygiene false
-/-- the last stage (the class of the conversion character is known: hypotheses in the context): late warnings, the type, the key,
-    the registration -/
-syntax "conv_key" : tactic
-macro_rules
-  | `(tactic| conv_key) => `(tactic| (
-      simp only [Py.warn, ite_ok, add_argument_eq, Option.isSome, Bool.false_eq_true, if_false, if_true, Bool.and_false, Bool.false_and,
-        Bool.true_and, Bool.and_true, decide_true, decide_false, *]
-      cases length <;> cases key <;>
-        (simp [ite_ok, add_argument_eq, Except.map, convEntry]
-         try (split <;> simp_all [Except.map])
-         all_goals try (
-           rename_i heq
-           obtain ⟨rfl, rfl⟩ := heq
-           simp [Except.map]
-           try (split <;> simp_all [Except.map])))))
+/-! ### the model `conversion`, staged like the code -/
 
-/-- the precision stage -/
-syntax "conv_prec " term : tactic
-macro_rules
-  | `(tactic| conv_prec $st) => `(tactic| (
-      cases prec with
-      | none =>
-        simp only [varPrecOf, precArgOf, Bool.false_eq_true, if_false, Option.map]
-        conv_key
-      | some p =>
-        cases p with
-        | star =>
-          simp only [varPrecOf, precArgOf, Option.isNone, if_true, add_argument_eq, variablePrecision]
-          cases ha : addArgument $st none ⟨.prec, variablePrecisionType, st.items.length⟩ with
-          | error e => simp [Except.map]
-          | ok st4 =>
-            simp only []
-            conv_key
-        | num n =>
-          simp only [varPrecOf, precArgOf, Bool.false_eq_true, if_false, cast_gt, cast_gt3, Option.map]
-          by_cases hn : n > SSIZE_MAX
-          · simp [hn, Except.map]
-          · simp only [hn, decide_false, decide_true, Bool.false_eq_true, if_false, Bool.and_false, Bool.and_true]
-            by_cases hn3 : n > SSIZE_MAX - 3
-            · simp only [hn3, decide_true, Bool.and_true]
-              by_cases hA' : intCvt.contains conv = true
-              · first
-                  | exact absurd hA' hA
-                  | (simp only [hA', if_true]; simp [Except.map])
-              · first
-                  | exact absurd hA hA'
-                  | (simp only [hA', Bool.false_eq_true, if_false]
-                     conv_key)
-            · simp only [hn3, decide_false, Bool.and_false, Bool.false_eq_true, if_false]
-              conv_key))
+def widthVal (d : Directive) : Option PyKit.EllInt := match d.width with | .star => some .ellipsis | .num n => some (.int n)
+def precVal (d : Directive) : Option PyKit.EllInt :=
+  match d.prec with | none => none | some .star => some .ellipsis | some (.num n) => some (.int n)
 
-/-- the width stage -/
-syntax "conv_width" : tactic
-macro_rules
-  | `(tactic| conv_width) => `(tactic| (
-      cases width with
-      | star =>
-        simp only [varWidthOf, widthArgOf, Option.isNone, if_true, add_argument_eq, variableWidth]
-        cases ha : addArgument st2 none ⟨.width, variableWidthType, st.items.length⟩ with
-        | error e => simp [Except.map]
-        | ok st3 =>
-          simp only []
-          conv_prec st3
-      | num n =>
-        simp only [varWidthOf, widthArgOf, intOfOpt, Bool.false_eq_true, if_false, cast_gt, Option.map]
-        by_cases hn : n > SSIZE_MAX
-        · simp [hn, Except.map]
-        · simp only [hn, decide_false, Bool.false_eq_true, if_false]
-          conv_prec st2))
+/-- the loop over `[('-', '0'), ('+', ' ')]` -/
+def sPairs (w : Bool) (flags : List Char) (st : St) : St :=
+  let st := if flags.contains '-' && flags.contains '0' then warn w st .RedundantFlag else st
+  if flags.contains '+' && flags.contains ' ' then warn w st .RedundantFlag else st
 
-set_option maxHeartbeats 4000000 in
+def sWidth (st : St) (d : Directive) (id : Nat) : Except PErr (St × Option PyKit.EllInt) :=
+  match doWidth st d.width id with | .ok s => .ok (s, widthVal d) | .error e => .error e
+
+def sPrec (st : St) (d : Directive) (id : Nat) : Except PErr (St × Option PyKit.EllInt) :=
+  match doPrec st d.prec d.conv id with | .ok s => .ok (s, precVal d) | .error e => .error e
+
+/-- `if prec is not None: …` (the two warnings) -/
+def sLate1 (w : Bool) (st : St) (d : Directive) (pv : Option PyKit.EllInt) : St :=
+  match pv with
+  | none => st
+  | some _ =>
+    let st := if intCvt.contains d.conv && d.flags.contains '0' then warn w st .RedundantFlag else st
+    if "c%".toList.contains d.conv then warn w st .RedundantPrecision else st
+
+/-- `if length is not None: …` -/
+def sLate2 (w : Bool) (st : St) (d : Directive) : St := if d.length.isSome then warn w st .RedundantLength else st
+
+/-- the `if conv in i.int_cvt: … elif …` chain (with the `%u` warning) -/
+def sType (w : Bool) (st : St) (d : Directive) : Except PErr (St × List Char) :=
+  match typeTable.lookup d.conv with
+  | none => .error (.crash .AssertionError)
+  | some tp => .ok (if d.conv == 'u' && intCvt.contains d.conv then warn w st .ObsoleteConversion else st, tp.toList)
+
+/-- the forbidden key / the registration -/
+def sFinal (st : St) (d : Directive) (id : Nat) (tp : List Char) : Except PErr St :=
+  if tp = "None".toList then (if d.key.isSome then .error .ForbiddenArgumentKey else .ok st)
+  else addArgument st d.key ⟨.conv, String.ofList tp, id⟩
+
+theorem str_none (tp : String) : (tp.toList = "None".toList) = (tp = "None") := by
+  apply propext
+  constructor
+  · intro h; rw [← String.ofList_toList (s := tp), h]; rfl
+  · intro h; rw [h]
+
+theorem conversion_staged (w : Bool) (st : St) (d : Directive) :
+    (conversion w st d).map (fun r => (r.2.toList, r.1)) =
+      Except.bind (flagLoop w d.flags d.conv (distinct d.flags) st) (fun st1 =>
+      Except.bind (sWidth (sPairs w d.flags st1) d st.items.length) (fun r3 =>
+      Except.bind (sPrec r3.1 d st.items.length) (fun r4 =>
+      Except.bind (sType w (sLate2 w (sLate1 w r4.1 d r4.2) d) d) (fun r7 =>
+      Except.bind (sFinal r7.1 d st.items.length r7.2) (fun st8 => .ok (r7.2, st8)))))) := by
+  unfold conversion checkFlags
+  simp only []
+  cases flagLoop w d.flags d.conv (distinct d.flags) st with
+  | error e => rfl
+  | ok st1 =>
+    simp only [bind_ok, sWidth, sPairs]
+    cases doWidth (if (d.flags.contains '+' && d.flags.contains ' ') = true then
+        warn w (if (d.flags.contains '-' && d.flags.contains '0') = true then warn w st1 Warn.RedundantFlag else st1) Warn.RedundantFlag
+      else if (d.flags.contains '-' && d.flags.contains '0') = true then warn w st1 Warn.RedundantFlag else st1) d.width st.items.length with
+    | error e => rfl
+    | ok st3 =>
+      simp only [bind_ok, sPrec]
+      cases doPrec st3 d.prec d.conv st.items.length with
+      | error e => rfl
+      | ok st4 =>
+        simp only [bind_ok, sType]
+        have hl : lateWarnings w st4 d =
+            (if (d.conv == 'u' && intCvt.contains d.conv) = true then warn w (sLate2 w (sLate1 w st4 d (precVal d)) d) .ObsoleteConversion
+             else sLate2 w (sLate1 w st4 d (precVal d)) d) := by
+          unfold lateWarnings sLate2 sLate1 precVal
+          cases hp : d.prec with
+          | none => simp [cpercent]
+          | some p => cases p <;> simp [cpercent]
+        rw [hl]
+        cases typeTable.lookup d.conv with
+        | none => rfl
+        | some tp =>
+          simp only [bind_ok, sFinal, str_none, String.ofList_toList]
+          by_cases ht : tp = "None"
+          · subst ht
+            cases d.key <;> rfl
+          · have ht' : (tp == "None") = false := by simpa using ht
+            simp only [ht, ht', Bool.false_eq_true, if_false]
+            cases addArgument _ d.key _ <;> rfl
+
+/-- `Conversion(parent, s, key=…, …)` as regenerated, called with the keyword arguments the scanner passes for `d`, = the model's
+    `conversion` -/
 theorem conversion_eq (w : Bool) (st : St) (s : List Char) (d : Directive) (hs : s.getLast? = some d.conv) :
     PyFmtConv.Conversion.__init__ w st s d.key d.flags (widthArgOf d) (varWidthOf d) (precArgOf d) (varPrecOf d) d.length d.conv
       = (conversion w st d).map (fun r => (r.2.toList, r.1)) := by
-  obtain ⟨key, flags, width, prec, length, conv⟩ := d
-  simp only [PyFmtConv.Conversion.__init__, conversion, strLast, hs, objectId, decide_true, if_true, ite_ok, checkFlags]
-  rw [show counterItems flags = (distinct flags).map (fun c => (c, (flags.count c : Int))) from rfl,
-    forEach_map _ _ (flagLoop w flags conv) (fun _ => rfl) ?hcons]
-  case hcons =>
-    intro b rest s
-    dsimp only [Py.warn]
-    exact flag_step w flags conv b rest s
-  cases hfl : flagLoop w flags conv (distinct flags) st with
-  | error e => rfl
-  | ok st1 =>
-    simp only [PyKit.forEach, ite_ok, Py.warn]
-    generalize (if (flags.contains '+' && flags.contains ' ') = true then _ else _) = st2
-    simp only [lookup_chain, doWidth, doPrec, lateWarnings, cpercent]
-    clear hfl hs
-    -- the class of the conversion character
-    by_cases hA : intCvt.contains conv = true
-    · by_cases hu : conv = 'u'
-      · conv_width
-      · conv_width
-    · by_cases hf : floatCvt.contains conv = true
-      · conv_width
-      · by_cases hc : conv = 'c'
-        · conv_width
-        · by_cases hs' : conv = 's'
-          · conv_width
-          · by_cases hra : "ra".toList.contains conv = true
-            · conv_width
-            · by_cases hp : conv = '%'
-              · conv_width
-              · conv_width
+  rw [conversion_staged]
+  simp only [PyFmtConv.Conversion.__init__, strLast, hs, bind_ok, decide_true, if_true, objectId]
+  -- the flags, one by one
+  refine bind_congr ?flags (fun st1 => ?_)
+  case flags =>
+    rw [show counterItems d.flags = (distinct d.flags).map (fun c => (c, (d.flags.count c : Int))) from rfl]
+    refine forEach_map _ _ (flagLoop w d.flags d.conv) (fun _ => rfl) (fun b rest s => ?_) _ _
+    simp only [ite_ok, bind_ok, Py.warn]
+    exact flag_step w d.flags d.conv b rest s
+  -- the two pairs
+  refine (bind_of_ok (x := sPairs w d.flags st1) ?pairs).trans ?_
+  case pairs => simp only [PyKit.forEach, ite_ok, bind_ok, Py.warn, sPairs]
+  -- the width
+  refine bind_congr ?width (fun r3 => ?_)
+  case width =>
+    generalize sPairs w d.flags st1 = st2
+    simp only [sWidth, doWidth, widthVal]
+    cases hw : d.width with
+    | star =>
+      simp only [varWidthOf, widthArgOf, hw, Option.isNone, if_true, add_argument_eq, variableWidth]
+      cases addArgument st2 none ⟨.width, variableWidthType, st.items.length⟩ <;> rfl
+    | num n =>
+      simp only [varWidthOf, widthArgOf, hw, Bool.false_eq_true, if_false, Py.intOfOpt, bind_ok, cast_gt, Option.map]
+      by_cases hn : n > SSIZE_MAX <;> simp [hn, bind_ok, bind_error]
+  obtain ⟨st3, wv⟩ := r3
+  simp only []
+  -- the precision
+  refine bind_congr ?prec (fun r4 => ?_)
+  case prec =>
+    simp only [sPrec, doPrec, precVal]
+    cases hp : d.prec with
+    | none => simp only [varPrecOf, precArgOf, hp, Bool.false_eq_true, if_false, bind_ok, Option.map]
+    | some p =>
+      cases p with
+      | star =>
+        simp only [varPrecOf, precArgOf, hp, Option.isNone, if_true, add_argument_eq, variablePrecision]
+        cases addArgument st3 none ⟨.prec, variablePrecisionType, st.items.length⟩ <;> rfl
+      | num n =>
+        simp only [varPrecOf, precArgOf, hp, Bool.false_eq_true, if_false, cast_gt, cast_gt3, Option.map]
+        by_cases hn : n > SSIZE_MAX
+        · simp [hn, bind_ok, bind_error]
+        · simp only [hn, decide_false, Bool.false_eq_true, if_false]
+          generalize intCvt.contains d.conv = A
+          by_cases hn3 : n > SSIZE_MAX - 3 <;> cases A <;> simp [hn3, bind_ok, bind_error]
+  obtain ⟨st4, pv⟩ := r4
+  simp only []
+  -- `if prec is not None:` the two warnings
+  refine (bind_of_ok (x := sLate1 w st4 d pv) ?late1).trans ?_
+  case late1 => cases pv <;> simp only [sLate1, ite_ok, bind_ok, Py.warn]
+  -- `if length is not None:`
+  refine (bind_of_ok (x := sLate2 w (sLate1 w st4 d pv) d) ?late2).trans ?_
+  case late2 => unfold sLate2; cases d.length <;> rfl
+  generalize sLate2 w (sLate1 w st4 d pv) d = st6
+  -- the type
+  refine bind_congr ?type (fun r7 => ?_)
+  case type =>
+    simp only [sType, lookup_chain, ite_ok, bind_ok, Py.warn]
+    generalize intCvt.contains d.conv = A
+    generalize floatCvt.contains d.conv = F
+    generalize "ra".toList.contains d.conv = RA
+    cases A
+    · simp only [Bool.false_eq_true, if_false, Bool.and_false]
+      cases F
+      · simp only [Bool.false_eq_true, if_false]
+        by_cases hc : d.conv = 'c'
+        · simp [hc, bind_ok, bind_error]
+        · by_cases hs' : d.conv = 's'
+          · simp [hs', bind_ok, bind_error]
+          · cases RA
+            · by_cases hp : d.conv = '%' <;> simp [hc, hs', hp, bind_ok, bind_error]
+            · simp [hc, hs', bind_ok, bind_error]
+      · simp [bind_ok, bind_error]
+    · simp only [if_true, Bool.and_true]
+      by_cases hu : d.conv = 'u' <;> simp [hu, bind_ok, bind_error]
+  obtain ⟨st7, tp⟩ := r7
+  -- the key, the registration
+  refine bind_congr ?final (fun _ => rfl)
+  case final =>
+    simp only [sFinal, add_argument_eq, convEntry]
+    by_cases ht : tp = "None".toList
+    · simp only [ht, decide_true, if_true]
+      cases d.key <;> rfl
+    · simp only [ht, decide_false, Bool.false_eq_true, if_false]
 
 end I18n.PyFmt.Gen
